@@ -379,7 +379,8 @@ def _amplification(opt: Any, params: list, cfg: dict) -> float:
                         # orthogonal iteration Q <- qr(F Q): the trailing columns are determined up to u * cond(F); for a (nearly) rank-deficient
                         # factor they are numerically arbitrary inside the (near) null space - a valid basis either way (C03), not one expected answer
                         lmin = float(L.abs().min())
-                        worst = max(worst, lmax / lmin if lmin > 0 else float("inf"))
+                        its = max(1, int(cfg["precond"].get("max_it", 1)))  # every iteration re-amplifies what the previous one left
+                        worst = max(worst, its * lmax / lmin if lmin > 0 else float("inf"))
                 else:
                     e = cfg["epsilon"]
                     worst = max(worst, (lmax + e) / (max(float(L.min()), 0.0) + e))
